@@ -8,14 +8,16 @@ def run(tier):
     tot = {}; exh = True; samples = []
     for variant in (("prod", "asan") if tier == "thorough" else ("prod",)):
         exe = build.link_driver("c17", variant, SRCS, tus=("mir", "mir-gen", "c2mir"), ldflags=WRAP if variant == "prod" else [])
-        res = runner.run_driver(exe, tier, "C17", nshards=1, case_timeout=3000, deadline=3300)
+        res = runner.run_driver(exe, tier, "C17", nshards=2, case_timeout=3000, deadline=3300)
         rep.add_driver_result(res, "build=" + variant)
         for k, v in res["stats"].items(): tot[k] = tot.get(k, 0) + v if not k.startswith("max:") else max(tot.get(k, 0), v)
         exh = exh and res["exhaustive"]; samples = samples or res["samples"]
     rep.coverage = dict(states=tot.get("states", 0), transitions=tot.get("transitions", 0), traces_validated_against_impl=tot.get("transitions", 0), max_depth=tot.get("max:depth", 0),
-                        samples=samples, exhaustive=exh,
+                        samples=samples, exhaustive=exh, code_patches_swept=tot.get("patches", 0),
                         explanation="BFS over all legal histories up to the depth of: create a module by API / MIR_scan_string / MIR_read / c2mir_compile, load, link with interp / gen / lazy / lazy-bb interface, run, MIR_gen at changing levels, MIR_output, MIR_write; every history is closed by gen_finish, c2mir_finish, MIR_finish. "
                                     "The context uses a checking MIR_alloc (ledger with sizes: realloc must quote the true old size, no unknown/double free, quarantined blocks verified untouched, nothing live after finish) and a checking MIR_code_alloc (pages mapped read+exec, writable only between mem_protect(WRITE_EXEC) and mem_protect(READ_EXEC); a store outside a window faults); "
                                     "library objects are linked with --wrap so that a direct libc malloc/calloc/realloc/free from library code is reported")
+    rep.coverage["explanation"] += ("; plus a sweep of the code patching entry points: _MIR_change_code for every length 1..16 at every offset within 24 bytes of a page boundary inside a published region and at both ends of it, "
+                                   "and _MIR_update_code_arr with relocations on both sides of page boundaries, under the same write-window allocator")
     rep.assumptions = ["libc-internal allocations (stdio buffers etc.) are not the library's blocks and are not judged", "one call interface per context (interp or generator family) in the legality automaton"]
     return rep.finish()
